@@ -1,186 +1,39 @@
-import Sucds.Proofs.BroadwordBV
-/-! C14 — broadword primitives equal their mathematical definitions on every word, for every build
-    configuration (portable and `intrinsics`, checked and wrapping arithmetic). -/
-set_option linter.unusedSimpArgs false
-set_option linter.unusedVariables false
-set_option maxRecDepth 4096
+import Sucds.Proofs.C14Msb
+import Sucds.Proofs.BitVectorSelect
+/-! # C14 — broadword primitives equal their mathematical definitions on every word
+
+For every 64-bit word, every `k` and **every build configuration** (portable or `intrinsics` code,
+checked or wrapping arithmetic): the model of `popcount`, `lsb`, `msb`, `select_in_word` returns
+(without panicking) the number of set bits, the lowest / highest set position (`none` iff `x = 0`)
+and the position of the k-th set bit (`none` iff `k ≥ popcount x`). The model is stated over the
+constants and tables regenerated from `src/broadword.rs` (`Gen.*`). -/
 namespace Sucds.C14
 open Sucds Sucds.Broadword Sucds.Spec
 
-theorem countP_range (f : Nat → Bool) (n : Nat) : (List.range n).countP f = cnt f n := by
-  induction n with
-  | zero => rfl
-  | succ n ih => rw [List.range_succ, List.countP_append, ih]; simp [cnt, List.countP_cons]
+/-- the full statement of C14 over the model -/
+def Statement : Prop :=
+  ∀ (c : Cfg) (x : BitVec 64),
+    popcount c x = .ok (cnt (bitsOf x) 64) ∧
+    lsb c x = .ok (sel (bitsOf x) 64 0) ∧
+    msb c x = .ok (if x = 0 then none else sel (bitsOf x) 64 (cnt (bitsOf x) 64 - 1)) ∧
+    ∀ k, selectInWord c x k = .ok (sel (bitsOf x) 64 k)
 
-/-- **popcount** -/
-theorem popcount_ok (c : Cfg) (x : BitVec 64) : popcount c x = .ok (cnt (bitsOf x) 64) := by
-  unfold popcount
-  split
-  · simp only [countOnes, countP_range]; rfl
-  · rw [byteCounts_eq]; simp only [Except.bind, popcountW_ok]
+theorem holds : Statement :=
+  fun c x => ⟨popcount_ok c x, lsb_ok c x, msb_ok c x, fun k => selectInWord_ok c x k⟩
 
-theorem ones8_toNat : ONES_STEP_8.toNat = 72340172838076673 := by decide
+/-- `sel` is "the k-th set position": it is `none` exactly when there are at most `k` set bits, and
+    otherwise the unique position holding a set bit with exactly `k` set bits below it -/
+theorem sel_meaning (P : Nat → Bool) (n k : Nat) :
+    (sel P n k = none ↔ cnt P n ≤ k) ∧ (∀ p, sel P n k = some p ↔ IsKth P n k p) := by
+  refine ⟨⟨Sucds.sel_none_le P n k, sel_eq_none P n k⟩, fun p => ⟨Sucds.sel_isKth P n k p, sel_eq_some P n k p⟩⟩
 
-theorem shiftAmount_ok (c : Cfg) (s : Nat) (h : s < 64) : shiftAmount c s = .ok (BitVec.ofNat 64 s) := by
-  simp [shiftAmount, h]
+/-- configuration independence of the primitives (used by C15) -/
+theorem config_independent (c c' : Cfg) (x : BitVec 64) (k : Nat) :
+    popcount c x = popcount c' x ∧ lsb c x = lsb c' x ∧ msb c x = msb c' x ∧ selectInWord c x k = selectInWord c' x k := by
+  obtain ⟨a1, a2, a3, a4⟩ := holds c x
+  obtain ⟨b1, b2, b3, b4⟩ := holds c' x
+  exact ⟨by rw [a1, b1], by rw [a2, b2], by rw [a3, b3], by rw [a4 k, b4 k]⟩
 
-theorem geq_count (S kb : BitVec 64) (ci : Nat) (hci : ci < 8)
-    (hI : bytesSum (byteCountsW (selGeq S kb)) = BitVec.ofNat 64 ci) : cnt (bitsOf (selGeq S kb)) 64 = ci := by
-  have := popcountW_ok (selGeq S kb)
-  rw [hI, BitVec.toNat_ofNat] at this
-  omega
-theorem place_intr (c : Cfg) (g : BitVec 64) (ci : Nat) (hci : ci < 8) (e : cnt (bitsOf g) 64 = ci)
-    (hc : c.intrinsics = true) : selPlaceM c g = .ok (8 * ci) := by
-  unfold selPlaceM
-  rw [if_pos hc, popcount_ok]
-  simp only [Except.bind]
-  rw [e, cmul_ok c (by omega)]; congr 1; omega
-theorem place_port (c : Cfg) (g : BitVec 64) (ci : Nat) (hci : ci < 8) (hp : placePortable g = BitVec.ofNat 64 (8 * ci))
-    (hc : ¬ c.intrinsics = true) : selPlaceM c g = .ok (8 * ci) := by
-  unfold selPlaceM
-  rw [if_neg hc, hp, BitVec.toNat_ofNat]; congr 1; omega
-/-- both variants of the `place` block give 8 × (index of the byte holding the answer) -/
-theorem selPlaceM_ok (c : Cfg) (S kb : BitVec 64) (ci : Nat) (hci : ci < 8)
-    (hp : selPlace S kb = BitVec.ofNat 64 (8 * ci))
-    (hI : bytesSum (byteCountsW (selGeq S kb)) = BitVec.ofNat 64 ci) :
-    selPlaceM c (selGeq S kb) = .ok (8 * ci) := by
-  have e := geq_count S kb ci hci hI
-  have hp' : placePortable (selGeq S kb) = BitVec.ofNat 64 (8 * ci) := hp
-  generalize selGeq S kb = g at e hp'
-  by_cases hc : c.intrinsics = true
-  · exact place_intr c g ci hci e hc
-  · exact place_port c g ci hci hp' hc
-
-/-- evaluation of the tail of `select_in_word` once the byte `ci` holding the answer is known -/
-theorem finish (c : Cfg) (x : BitVec 64) (k ci : Nat) (prev : BitVec 64) (hci : ci < 8) (hk : k < cnt (bitsOf x) 64)
-    (hp : selPlace (ONES_STEP_8 * byteCountsW x) (BitVec.ofNat 64 k) = BitVec.ofNat 64 (8 * ci))
-    (hsub : ((((ONES_STEP_8 * byteCountsW x) <<< 8) >>> BitVec.ofNat 64 (8 * ci)) &&& 0xFF#64) = prev)
-    (hprevN : prev.toNat = cnt (bitsOf x) (8 * ci))
-    (hprev : prev ≤ BitVec.ofNat 64 k)
-    (hbor : (ONES_STEP_8 * byteCountsW x) ≤ ((BitVec.ofNat 64 k * ONES_STEP_8) ||| MSBS_STEP_8))
-    (hI : bytesSum (byteCountsW (selGeq (ONES_STEP_8 * byteCountsW x) (BitVec.ofNat 64 k))) = BitVec.ofNat 64 ci)
-    (hlo : cnt (bitsOf x) (8 * ci) ≤ k) (hhi : k < cnt (bitsOf x) (8 * ci + 8)) :
-    ∃ p, selectTail c x k (ONES_STEP_8 * byteCountsW x) = .ok (some p) ∧ IsKth (bitsOf x) 64 k p := by
-  have hk64 : k < 64 := by have := cnt_le (bitsOf x) 64; omega
-  have hkb : (BitVec.ofNat 64 k).toNat = k := by rw [BitVec.toNat_ofNat]; omega
-  have hsplit := cnt_add (bitsOf x) (8 * ci) 8
-  have hcong : cnt (fun i => bitsOf x (8 * ci + i)) 8 = cnt (fun i => ((x >>> (8*ci)) &&& 0xFF#64).toNat.testBit i) 8 :=
-    cnt_congr _ _ 8 (fun i hi => (byte_testBit x (8*ci) i hi).symm)
-  have hb : ((x >>> (8*ci)) &&& 0xFF#64).toNat < 256 := by
-    rw [BitVec.toNat_and]; exact Nat.lt_of_le_of_lt Nat.and_le_right (by decide)
-  have hrN : (BitVec.ofNat 64 k - prev).toNat = k - cnt (bitsOf x) (8 * ci) := by
-    have hle := hprev
-    rw [BitVec.le_def, hkb, hprevN] at hle
-    rw [BitVec.toNat_sub, hkb, hprevN]; omega
-  have hr8 : (BitVec.ofNat 64 k - prev).toNat < 8 := by
-    have := cnt_le (fun i => bitsOf x (8 * ci + i)) 8
-    omega
-  have hidx : (((x >>> (8*ci)) &&& 0xFF#64) ||| ((BitVec.ofNat 64 k - prev) <<< 8)).toNat
-      = ((x >>> (8*ci)) &&& 0xFF#64).toNat + 256 * (BitVec.ofNat 64 k - prev).toNat := by
-    rw [or_shl8 _ _ (by rw [BitVec.and_assoc]; rfl) (by rw [BitVec.lt_def]; simpa using hr8)]
-    rw [BitVec.toNat_add, BitVec.toNat_mul]
-    have : (256#64).toNat = 256 := rfl
-    rw [this]; omega
-  obtain ⟨q, hq0, hq, hbit, hcnt⟩ := table_ok ((x >>> (8*ci)) &&& 0xFF#64).toNat (BitVec.ofNat 64 k - prev).toNat hb hr8
-    (by rw [← hcong]; omega)
-  refine ⟨8 * ci + q, ?_, by omega, ?_, ?_⟩
-  · unfold selectTail
-    rw [bmul_ok c (by rw [hkb, ones8_toNat]; omega)]
-    simp only [Except.bind]
-    rw [bsub_ok c (by rw [← BitVec.le_def]; exact hbor)]
-    simp only [Except.bind]
-    have hgeq : (BitVec.ofNat 64 k * ONES_STEP_8 ||| MSBS_STEP_8) - (ONES_STEP_8 * byteCountsW x) &&& MSBS_STEP_8 = selGeq (ONES_STEP_8 * byteCountsW x) (BitVec.ofNat 64 k) := rfl
-    rw [hgeq, selPlaceM_ok c _ _ ci hci hp hI]
-    simp only [Except.bind]
-    rw [shiftAmount_ok c _ (by omega)]
-    simp only [Except.bind]
-    rw [hsub, bsub_ok c (by rw [← BitVec.le_def]; exact hprev)]
-    simp only [Except.bind]
-    have hsh : x >>> BitVec.ofNat 64 (8 * ci) = x >>> (8 * ci) := by
-      rw [BitVec.ushiftRight_eq', BitVec.toNat_ofNat, Nat.mod_eq_of_lt (by omega)]
-    rw [hsh, hidx, hq0]
-    simp only []
-    rw [cadd_ok c (by omega)]
-  · rw [← byte_testBit x (8*ci) _ hq]; exact hbit
-  · rw [cnt_add, cnt_congr _ _ _ (fun i hi => (byte_testBit x (8*ci) i (by omega)).symm), hcnt]
-    omega
-
-/-- **select_in_word**: the position of the k-th set bit, `none` iff `k ≥ popcount`, for every k -/
-theorem selectInWord_ok (c : Cfg) (x : BitVec 64) (k : Nat) :
-    selectInWord c x k = .ok (sel (bitsOf x) 64 k) := by
-  by_cases hk : k < cnt (bitsOf x) 64
-  · suffices h : ∃ p, selectTail c x k (ONES_STEP_8 * byteCountsW x) = .ok (some p) ∧ IsKth (bitsOf x) 64 k p by
-      obtain ⟨p, h1, h2⟩ := h
-      unfold selectInWord
-      rw [popcount_ok]
-      simp only [Except.bind]
-      rw [if_neg (by omega), byteCounts_eq]
-      simp only [Except.bind]
-      rw [h1, sel_eq_some _ _ _ _ h2]
-    have hk64' : k < 64 := by have := cnt_le (bitsOf x) 64; omega
-    have hkb : (BitVec.ofNat 64 k).toNat = k := by rw [BitVec.toNat_ofNat]; omega
-    have hk64 : BitVec.ofNat 64 k < 64#64 := by rw [BitVec.lt_def, hkb]; simpa using hk64'
-    have hS8 := bsum_hi _ (bc_nibble x)
-    have mono : ∀ a b : Nat, a ≤ b → cnt (bitsOf x) a ≤ cnt (bitsOf x) b := fun a b h => cnt_mono _ h
-    have m0 : (((ONES_STEP_8 * byteCountsW x) >>> 0) &&& 0xFF#64) ≤ (((ONES_STEP_8 * byteCountsW x) >>> 8) &&& 0xFF#64) := by rw [BitVec.le_def, sB0_toNat, sB1_toNat]; exact mono _ _ (by omega)
-    have m1 : (((ONES_STEP_8 * byteCountsW x) >>> 8) &&& 0xFF#64) ≤ (((ONES_STEP_8 * byteCountsW x) >>> 16) &&& 0xFF#64) := by rw [BitVec.le_def, sB1_toNat, sB2_toNat]; exact mono _ _ (by omega)
-    have m2 : (((ONES_STEP_8 * byteCountsW x) >>> 16) &&& 0xFF#64) ≤ (((ONES_STEP_8 * byteCountsW x) >>> 24) &&& 0xFF#64) := by rw [BitVec.le_def, sB2_toNat, sB3_toNat]; exact mono _ _ (by omega)
-    have m3 : (((ONES_STEP_8 * byteCountsW x) >>> 24) &&& 0xFF#64) ≤ (((ONES_STEP_8 * byteCountsW x) >>> 32) &&& 0xFF#64) := by rw [BitVec.le_def, sB3_toNat, sB4_toNat]; exact mono _ _ (by omega)
-    have m4 : (((ONES_STEP_8 * byteCountsW x) >>> 32) &&& 0xFF#64) ≤ (((ONES_STEP_8 * byteCountsW x) >>> 40) &&& 0xFF#64) := by rw [BitVec.le_def, sB4_toNat, sB5_toNat]; exact mono _ _ (by omega)
-    have m5 : (((ONES_STEP_8 * byteCountsW x) >>> 40) &&& 0xFF#64) ≤ (((ONES_STEP_8 * byteCountsW x) >>> 48) &&& 0xFF#64) := by rw [BitVec.le_def, sB5_toNat, sB6_toNat]; exact mono _ _ (by omega)
-    have m6 : (((ONES_STEP_8 * byteCountsW x) >>> 48) &&& 0xFF#64) ≤ (((ONES_STEP_8 * byteCountsW x) >>> 56) &&& 0xFF#64) := by rw [BitVec.le_def, sB6_toNat, sB7_toNat]; exact mono _ _ (by omega)
-    by_cases h0 : k < cnt (bitsOf x) 8
-    ·
-      obtain ⟨hp, hsub, hprev, hbor, _, _⟩ := sel0 (ONES_STEP_8 * byteCountsW x) (BitVec.ofNat 64 k) hk64 hS8 m0 m1 m2 m3 m4 m5 m6  (by rw [BitVec.lt_def, sB0_toNat, hkb]; omega)
-      have hI := selI0 (ONES_STEP_8 * byteCountsW x) (BitVec.ofNat 64 k) hk64 hS8 m0 m1 m2 m3 m4 m5 m6  (by rw [BitVec.lt_def, sB0_toNat, hkb]; omega)
-      exact finish c x k 0 _ (by omega) hk hp hsub (by simp [Spec.cnt]) hprev hbor hI (by simp [Spec.cnt]) (by simp only [Nat.reduceMul, Nat.reduceAdd]; omega)
-    ·
-      by_cases h1 : k < cnt (bitsOf x) 16
-      ·
-        obtain ⟨hp, hsub, hprev, hbor, _, _⟩ := sel1 (ONES_STEP_8 * byteCountsW x) (BitVec.ofNat 64 k) hk64 hS8 m0 m1 m2 m3 m4 m5 m6 (by rw [BitVec.le_def, sB0_toNat, hkb]; omega) (by rw [BitVec.lt_def, sB1_toNat, hkb]; omega)
-        have hI := selI1 (ONES_STEP_8 * byteCountsW x) (BitVec.ofNat 64 k) hk64 hS8 m0 m1 m2 m3 m4 m5 m6 (by rw [BitVec.le_def, sB0_toNat, hkb]; omega) (by rw [BitVec.lt_def, sB1_toNat, hkb]; omega)
-        exact finish c x k 1 _ (by omega) hk hp hsub (by rw [sB0_toNat]) hprev hbor hI (by simp only [Nat.reduceMul]; omega) (by simp only [Nat.reduceMul, Nat.reduceAdd]; omega)
-      ·
-        by_cases h2 : k < cnt (bitsOf x) 24
-        ·
-          obtain ⟨hp, hsub, hprev, hbor, _, _⟩ := sel2 (ONES_STEP_8 * byteCountsW x) (BitVec.ofNat 64 k) hk64 hS8 m0 m1 m2 m3 m4 m5 m6 (by rw [BitVec.le_def, sB1_toNat, hkb]; omega) (by rw [BitVec.lt_def, sB2_toNat, hkb]; omega)
-          have hI := selI2 (ONES_STEP_8 * byteCountsW x) (BitVec.ofNat 64 k) hk64 hS8 m0 m1 m2 m3 m4 m5 m6 (by rw [BitVec.le_def, sB1_toNat, hkb]; omega) (by rw [BitVec.lt_def, sB2_toNat, hkb]; omega)
-          exact finish c x k 2 _ (by omega) hk hp hsub (by rw [sB1_toNat]) hprev hbor hI (by simp only [Nat.reduceMul]; omega) (by simp only [Nat.reduceMul, Nat.reduceAdd]; omega)
-        ·
-          by_cases h3 : k < cnt (bitsOf x) 32
-          ·
-            obtain ⟨hp, hsub, hprev, hbor, _, _⟩ := sel3 (ONES_STEP_8 * byteCountsW x) (BitVec.ofNat 64 k) hk64 hS8 m0 m1 m2 m3 m4 m5 m6 (by rw [BitVec.le_def, sB2_toNat, hkb]; omega) (by rw [BitVec.lt_def, sB3_toNat, hkb]; omega)
-            have hI := selI3 (ONES_STEP_8 * byteCountsW x) (BitVec.ofNat 64 k) hk64 hS8 m0 m1 m2 m3 m4 m5 m6 (by rw [BitVec.le_def, sB2_toNat, hkb]; omega) (by rw [BitVec.lt_def, sB3_toNat, hkb]; omega)
-            exact finish c x k 3 _ (by omega) hk hp hsub (by rw [sB2_toNat]) hprev hbor hI (by simp only [Nat.reduceMul]; omega) (by simp only [Nat.reduceMul, Nat.reduceAdd]; omega)
-          ·
-            by_cases h4 : k < cnt (bitsOf x) 40
-            ·
-              obtain ⟨hp, hsub, hprev, hbor, _, _⟩ := sel4 (ONES_STEP_8 * byteCountsW x) (BitVec.ofNat 64 k) hk64 hS8 m0 m1 m2 m3 m4 m5 m6 (by rw [BitVec.le_def, sB3_toNat, hkb]; omega) (by rw [BitVec.lt_def, sB4_toNat, hkb]; omega)
-              have hI := selI4 (ONES_STEP_8 * byteCountsW x) (BitVec.ofNat 64 k) hk64 hS8 m0 m1 m2 m3 m4 m5 m6 (by rw [BitVec.le_def, sB3_toNat, hkb]; omega) (by rw [BitVec.lt_def, sB4_toNat, hkb]; omega)
-              exact finish c x k 4 _ (by omega) hk hp hsub (by rw [sB3_toNat]) hprev hbor hI (by simp only [Nat.reduceMul]; omega) (by simp only [Nat.reduceMul, Nat.reduceAdd]; omega)
-            ·
-              by_cases h5 : k < cnt (bitsOf x) 48
-              ·
-                obtain ⟨hp, hsub, hprev, hbor, _, _⟩ := sel5 (ONES_STEP_8 * byteCountsW x) (BitVec.ofNat 64 k) hk64 hS8 m0 m1 m2 m3 m4 m5 m6 (by rw [BitVec.le_def, sB4_toNat, hkb]; omega) (by rw [BitVec.lt_def, sB5_toNat, hkb]; omega)
-                have hI := selI5 (ONES_STEP_8 * byteCountsW x) (BitVec.ofNat 64 k) hk64 hS8 m0 m1 m2 m3 m4 m5 m6 (by rw [BitVec.le_def, sB4_toNat, hkb]; omega) (by rw [BitVec.lt_def, sB5_toNat, hkb]; omega)
-                exact finish c x k 5 _ (by omega) hk hp hsub (by rw [sB4_toNat]) hprev hbor hI (by simp only [Nat.reduceMul]; omega) (by simp only [Nat.reduceMul, Nat.reduceAdd]; omega)
-              ·
-                by_cases h6 : k < cnt (bitsOf x) 56
-                ·
-                  obtain ⟨hp, hsub, hprev, hbor, _, _⟩ := sel6 (ONES_STEP_8 * byteCountsW x) (BitVec.ofNat 64 k) hk64 hS8 m0 m1 m2 m3 m4 m5 m6 (by rw [BitVec.le_def, sB5_toNat, hkb]; omega) (by rw [BitVec.lt_def, sB6_toNat, hkb]; omega)
-                  have hI := selI6 (ONES_STEP_8 * byteCountsW x) (BitVec.ofNat 64 k) hk64 hS8 m0 m1 m2 m3 m4 m5 m6 (by rw [BitVec.le_def, sB5_toNat, hkb]; omega) (by rw [BitVec.lt_def, sB6_toNat, hkb]; omega)
-                  exact finish c x k 6 _ (by omega) hk hp hsub (by rw [sB5_toNat]) hprev hbor hI (by simp only [Nat.reduceMul]; omega) (by simp only [Nat.reduceMul, Nat.reduceAdd]; omega)
-                ·
-                  obtain ⟨hp, hsub, hprev, hbor, _, _⟩ := sel7 (ONES_STEP_8 * byteCountsW x) (BitVec.ofNat 64 k) hk64 hS8 m0 m1 m2 m3 m4 m5 m6 (by rw [BitVec.le_def, sB6_toNat, hkb]; omega) (by rw [BitVec.lt_def, sB7_toNat, hkb]; omega)
-                  have hI := selI7 (ONES_STEP_8 * byteCountsW x) (BitVec.ofNat 64 k) hk64 hS8 m0 m1 m2 m3 m4 m5 m6 (by rw [BitVec.le_def, sB6_toNat, hkb]; omega) (by rw [BitVec.lt_def, sB7_toNat, hkb]; omega)
-                  exact finish c x k 7 _ (by omega) hk hp hsub (by rw [sB6_toNat]) hprev hbor hI (by simp only [Nat.reduceMul]; omega) (by simp only [Nat.reduceMul, Nat.reduceAdd]; omega)
-  
-  · have hle : cnt (bitsOf x) 64 ≤ k := by omega
-    unfold selectInWord
-    rw [popcount_ok]
-    simp only [Except.bind]
-    rw [if_pos hle, sel_eq_none _ _ _ hle]
-
-#print axioms popcount_ok
-#print axioms selectInWord_ok
+-- the statement has no hypotheses, so it cannot hold vacuously; a concrete instance for the reader:
+-- `selectInWord ⟨true, false⟩ 0xF0F0#64 5 = .ok (some 13)` (evaluated by the driver in every run)
 end Sucds.C14
